@@ -28,7 +28,7 @@ RULE = ("programs = root kind {coro, gencoro, gen, agen} x chain of 0..N links, 
         "coroutine wrapper / plain iterator / asend..aclose awaitables) x terminal {trap = yield in a types.coroutine function, bare yield, "
         "non-frame leaf} x statement layout {plain, assign, multi-line, try/finally, with, with @contextmanager} x own suspension before/after "
         "the delegation; every suspension point of each program plus unstarted, exhausted and closed roots and self-extraction of a running "
-        "link; exhaustive over edge kinds up to depth 1 (quick) / 2 (thorough), random beyond. distinct = distinct (program, stop) descriptors; "
+        "link; exhaustive over edge-kind paths of depth 1 and 2 (quick: every 4th depth-2 path), random chains of depth 2..4 (quick, 220 programs) / 2..6 (thorough, 9000 programs). distinct = distinct (program, stop) descriptors; "
         "non-trivial = chain of >= 2 objects or with a leaf / wrapper / exhausted / running link")
 CONFIG = dict(
     coq=["C03"], level="proof",
@@ -582,10 +582,14 @@ def make_inputs(tier, seed):
                 for pp in itertools.product([False, True], repeat=2):
                     yield from with_stops(program(root, [], term, rng, layouts=[lay], prepost=[list(pp)]))
     # exhaustive edge kinds
-    ex_depth = 1 if tier == "quick" else 2
-    for d in range(1, ex_depth + 1):
+    n2 = 0
+    for d in (1, 2):
         for root in roots:
             for edges, term in all_edge_paths(root, d):
+                if d == 2 and tier == "quick":
+                    n2 += 1
+                    if (n2 + seed) % 4:
+                        continue        # quick: every 4th depth-2 path (rotating with the seed)
                 reps = 2 if d == 1 else 1
                 for _ in range(reps):
                     yield from with_stops(program(root, edges, term, rng))
@@ -596,7 +600,7 @@ def make_inputs(tier, seed):
                 yield from with_stops(program(root, [e], "trap", rng, layouts=[lay, rng.choice(LAYOUTS)],
                                               prepost=[[True, True], [rng.random() < 0.5, rng.random() < 0.5]]))
     # random deeper chains
-    nrand, maxd = (220, 4) if tier == "quick" else (4000, 6)
+    nrand, maxd = (220, 4) if tier == "quick" else (9000, 6)
     for _ in range(nrand):
         root = rng.choice(roots)
         d = rng.randrange(2, maxd + 1)
